@@ -44,6 +44,7 @@ def edits_for(u):
             ev.append(('order', n, k, 2, 1))
         elif b.order == 3:
             ev.append(('order', n, k, 3, 2))
+            ev.append(('order', n, k, 3, 1))
     for a, b in itertools.combinations(atoms, 2):
         if not u.has_bond(a, b) and (a + b) % 3 == 0:
             ev.append(('form', a, b, 1))
@@ -54,6 +55,9 @@ def edits_for(u):
             ev.append(('charge', a, 0, -1))
         else:
             ev.append(('charge', a, at.charge, 0))
+            # changes that do not pass through zero (added after seed C15-h2)
+            ev.append(('charge', a, at.charge, 2 * at.charge))
+            ev.append(('charge', a, at.charge, -at.charge))
         ev.append(('radical', a, at.is_radical, not at.is_radical))
     return ev
 
@@ -187,6 +191,7 @@ def run_cases(shard):
     for si, ms in enumerate(sets):
         if si % nsh != k:
             continue
+        texts = {}  # CGR string -> numbering-free multiset of changes (added after seed C15-h1): one string, one set of changes
         mols = renumbered(ms)
         u = mols[0]
         for x in mols[1:]:
@@ -253,6 +258,11 @@ def run_cases(shard):
                         except Exception as e:
                             bad('condensed graph string raised %s' % type(e).__name__, case=tag)
                             continue
+                        if not gs:
+                            _a, _b, _t = expected_center(eds)
+                            sig = (tuple(sorted(map(str, _b.values()))), tuple(sorted(str((u.atom(n).atomic_number, sorted(d.items()))) for n, d in _t.items())))
+                            if texts.setdefault(ref_c, (sig, tag))[0] != sig:
+                                bad('two condensed graphs with different changes share one string', case=tag, other=texts[ref_c][1], got=ref_c)
                         nums = sorted(set(n for m in rs + ps + gs for n in m))
                         perms = graphs.gen_perms(nums)
                         # sparse numbers as well (sets of such numbers do not iterate in ascending order)
